@@ -22,6 +22,10 @@ GEN_AUDIT += ["Dashu.Audit.C10Coarse", "Dashu.Audit.C10Ratio"]
 # C10Coarse / C10Est carry as hypotheses are proved from its definition and the two estimator theorems re-stated without them
 GEN_PROPS += ["Dashu.Props.C10F32"]
 GEN_AUDIT += ["Dashu.Audit.C10F32"]
+# round 7: the two halves composed - round_fract AS WRITTEN (f32 test of the source with log2_bounds = its model, exact
+# comparison as fall-back) follows the mode definitions from (LIBM) alone, no CoarseSound oracle hypothesis left
+GEN_PROPS += ["Dashu.Props.C10Libm"]
+GEN_AUDIT += ["Dashu.Audit.C10Libm"]
 
 BASES = [2, 3, 10, 16, 36]
 MODES = "ZAUDEH"
@@ -570,7 +574,16 @@ REFINED = ["Round::round_low_part x6 (regenerated, Props/GenRound)", "Round::rou
            "Repr::digits_lb (`digitsLbReal`: lb, lb * LOG10_2, lb / log2_bounds(B).1, `as usize`): digits_lb <= digits proved from "
            "(LIBM) alone with log2_bounds of significand and base = their models (Proofs/Float/DigitsLb.lean, "
            "Props/C10F32.digits_lb_sound_libm, dlb_sound_ieee = hypothesis DlbSound of the C03 / C11 theorems, "
-           "digits_estimates_enclose_libm: digits_lb <= digits <= digits_ub); LOG10_2 enclosed from both sides (LOG10_2_two_sided)"]
+           "digits_estimates_enclose_libm: digits_lb <= digits <= digits_ub); LOG10_2 enclosed from both sides (LOG10_2_two_sided)",
+           "Round::round_fract as written (coarse f32 test with log2_bounds = log2LbModel / log2UbModel, then the exact comparison): "
+           "composed with the six regenerated mode tables - follows the mode definition and reports a truthful flag for every "
+           "2 <= B < 2^64, k <= 2^24, |fract| < B^k from (LIBM) alone, without the oracle hypothesis CoarseSound "
+           "(Props/C10Libm.round_fract_follows_mode_libm, round_fract_contract_libm, round_fract_coarse_irrelevant_libm)",
+           "both f32 estimators as concrete functions (`coarseLibm`: the test of the source on its region, undecided beyond; `dubLibm`: "
+           "digits_ub with log2_bounds of significand and base = their models up to 2^30 bits / 2^24+1 digits, exact count beyond; equal to "
+           "the source's estimators on the region: coarseLibm_eq, dubLibm_eq) meet CoarseSound / DubSound from (LIBM) alone "
+           "(estimators_sound_libm), hence FBig::trunc / floor / ceil / round / to_int, the to_int flag contract and repr_round hold for "
+           "THESE estimators without oracle hypotheses (fbig_int_roundings_libm, to_int_contract_libm, repr_round_contract_libm)"]
 FRONTIER = ["round_fract coarse test for precision > 2^24 digits (`precision as f32` rounds): no theorem. Reason: with relative-error "
             "reasoning the budget is exactly exhausted at first order - the ADJUST factor of log2_bounds_large gives 4u, the two "
             "roundings inside it, the sum `lb + 0.999` and the product `b_ub * k` take u each, so the additional rounding of k (u) is "
@@ -590,7 +603,12 @@ FRONTIER = ["round_fract coarse test for precision > 2^24 digits (`precision as 
             "estimate digits_lb composed with the same models too (digits_lb_sound_libm: digits_lb <= digits, significands up to "
             "2^30 bits and 2^21 digits; LOG10_2 lies ABOVE log10 2, so for base 10 only `<= digits`, not `<= digits - 1`, "
             "follows - which is what DlbSound asks); the no_std table estimator has its own libm-free theorem "
-            "(Props/C10EstNoStd)",
+            "(Props/C10EstNoStd). Round 7: coarse_test_sound_libm composed with the mode theorems "
+            "(Props/C10Libm.round_fract_follows_mode_libm / round_fract_contract_libm: round_fract as written, no CoarseSound "
+            "hypothesis) and both oracle hypotheses discharged for the concrete estimators "
+            "(estimators_sound_libm -> fbig_int_roundings_libm, to_int_contract_libm, repr_round_contract_libm); the concrete estimators "
+            "are clamped (undecided test for k > 2^24, exact digit count beyond 2^30 bits / 2^24+1 digits): outside the region they do "
+            "not describe the code - that part is the first FRONTIER entry",
             "machine integers: exponents / precisions are unbounded Int / Nat in the model; isize / usize overflow is outside every "
             "theorem and is covered by the E1 generator only (the one defect it found, exponent isize::MIN negated with overflow, is repaired in /repo 7e1bdaf: `unsigned_abs`)"]
 THEOREMS = ["Dashu.Props.C10." + t for t in (
@@ -617,7 +635,10 @@ THEOREMS = ["Dashu.Props.C10." + t for t in (
     "Exhaustive.source_literals Exhaustive.next_up_down_all_binades Exhaustive.bits_roundtrip log2_ub_std_sound "
     "digits_ub_inline_sound log2_bounds_enclose log2_bounds_sound_libm coarse_test_sound_libm libm_hypothesis_satisfiable "
     "digits_ub_sound_libm LOG10_2_two_sided digits_lb_sound_ieee dlb_sound_ieee digits_lb_sound_libm "
-    "digits_estimates_enclose_libm").split()]
+    "digits_estimates_enclose_libm").split()] + [
+    "Dashu.Props.C10Libm." + t for t in
+    "round_fract_coarse_irrelevant_libm round_fract_follows_mode_libm round_fract_contract_libm coarseLibm_eq dubLibm_eq "
+    "estimators_sound_libm fbig_int_roundings_libm to_int_contract_libm repr_round_contract_libm".split()]
 EXPLANATION = ("Lean theorems, for every base >= 2, every precision and all integers: the regenerated six mode tables composed with the "
                "exact half comparison (round_fract, round_ratio) return the adjustment the mode's definition names; repr_round / "
                "with_precision satisfy the rounding contract over Rat; trunc+fract = x, split_at_point = (trunc, fract) and "
